@@ -79,7 +79,7 @@ def run(ctx):
     if not (lean_ok and harness_ok):
         return C.finish(ctx)
     quick = ctx.tier == "quick"
-    count, max_ops = (400, 60) if quick else (10000, 120)
+    count, max_ops = (1600, 60) if quick else (10000, 120)
     total_scripts = total_ops = 0
     hist, distinct, samples = {}, 0, []
     # corpus first
